@@ -192,36 +192,46 @@ func runCheck(id, tier string, seed uint64) int {
 	sem := make(chan struct{}, cores)
 	var mu sync.Mutex
 	var results []*shardResult
-	var wg sync.WaitGroup
+	maxStage := 0
 	for _, j := range jobs {
-		j := j
-		for s := 0; s < j.shards; s++ {
-			s := s
-			wg.Add(1)
-			go func() {
-				defer wg.Done()
-				weight := j.weight
-				if weight < 1 {
-					weight = 1
-				}
-				if weight > cores {
-					weight = cores
-				}
-				for i := 0; i < weight; i++ {
-					sem <- struct{}{}
-				}
-				rs := runShard(bins[j.variant], id, tier, seed, j, s, work)
-				for i := 0; i < weight; i++ {
-					<-sem
-				}
-				mu.Lock()
-				results = append(results, rs...)
-				mu.Unlock()
-			}()
+		if j.stage > maxStage {
+			maxStage = j.stage
 		}
 	}
-	wg.Wait()
-
+	for stage := 0; stage <= maxStage; stage++ {
+		var wg sync.WaitGroup
+		for _, j := range jobs {
+			if j.stage != stage {
+				continue
+			}
+			j := j
+			for s := 0; s < j.shards; s++ {
+				s := s
+				wg.Add(1)
+				go func() {
+					defer wg.Done()
+					weight := j.weight
+					if weight < 1 {
+						weight = 1
+					}
+					if weight > cores {
+						weight = cores
+					}
+					for i := 0; i < weight; i++ {
+						sem <- struct{}{}
+					}
+					rs := runShard(bins[j.variant], id, tier, seed, j, s, work)
+					for i := 0; i < weight; i++ {
+						<-sem
+					}
+					mu.Lock()
+					results = append(results, rs...)
+					mu.Unlock()
+				}()
+			}
+		}
+		wg.Wait()
+	}
 	return conclude(id, tier, seed, plan, results, work, evPath, time.Since(start))
 }
 
@@ -254,6 +264,9 @@ func runWorker(bin, id, tier string, seed uint64, j *job, shard, attempt int, sk
 		"-shard", strconv.Itoa(shard), "-nshards", strconv.Itoa(j.shards), "-out", outPath, "-journal", jPath, "-repo", repoDir}
 	if skip > 0 {
 		args = append(args, "-skip-until", strconv.FormatInt(skip, 10))
+	}
+	if j.memcapMB > 0 {
+		args = append(args, "-memcap-mb", strconv.Itoa(j.memcapMB))
 	}
 	cmd := exec.Command(bin, args...)
 	cmd.Dir = work
@@ -415,6 +428,9 @@ func classifyDeath(r *shardResult) (class string, violation bool, detail string)
 		tail = tail[:3000] + "\n...\n" + tail[len(tail)-3000:]
 	}
 	switch {
+	case strings.Contains(s, "RESOURCE-BOUND-EXCEEDED"):
+		i := strings.Index(s, "RESOURCE-BOUND-EXCEEDED")
+		return "unbounded-memory", true, "the call under test made the live heap exceed the resource bound (non-terminating or unbounded traversal)\n" + headLines(s[i:], 50)
 	case strings.Contains(s, "all goroutines are asleep - deadlock!"):
 		return "deadlock", true, "Go runtime: all goroutines are asleep - deadlock!\n" + tail
 	case strings.Contains(s, "stack overflow") || strings.Contains(s, "goroutine stack exceeds"):
